@@ -192,7 +192,22 @@ def parts(tier):
                {"kinds": "KINDS_NEST", "samples": 1, "keys": ["a", "b"], "merge": ["default", "p50n2"]},
                shards=16, timeout=170, path_timeout=30, mode="CH-P+CH-E"),
         ]
-    return []
+    return [
+        CH("pairs_all_options", "vflib.props.c01:scen_accept",
+           {"kinds": "KINDS_FULL", "samples": 2, "keys": ["a"], "merge": ["default", "exact", "p50n2"], "registries": ["default", "none"],
+            "dkf": True, "dkr": True, "max_literals": [10, 0], "converters": True},
+           shards=16, timeout=1500, path_timeout=30, mode="CH-P+CH-E"),
+        CH("triples", "vflib.props.c01:scen_accept", {"kinds": "KINDS_FULL", "samples": 3, "keys": ["a"], "frameworks": ["pydantic", "attrs"]},
+           shards=16, timeout=1500, path_timeout=30, mode="CH-P+CH-E"),
+        CH("two_keys", "vflib.props.c01:scen_accept", {"kinds": "KINDS_SMALL", "samples": 2, "keys": ["a", "b"], "frameworks": ["pydantic", "dataclasses", "base"]},
+           shards=16, timeout=1500, path_timeout=30, mode="CH-P+CH-E"),
+        CH("three_nested_fields", "vflib.props.c01:scen_accept",
+           {"kinds": "KINDS_NEST", "samples": 1, "keys": ["a", "b", "c"], "merge": ["default", "p50n2"]},
+           shards=16, timeout=1500, path_timeout=30, mode="CH-P+CH-E"),
+        CH("datetime", "vflib.props.c01:scen_accept",
+           {"kinds": "KINDS_DATE", "samples": 3, "keys": ["a"], "registries": ["datetime"], "frameworks": ["pydantic", "dataclasses", "attrs", "sqlmodel"]},
+           shards=12, timeout=900, path_timeout=30, mode="CH-E"),
+    ]
 
 
 META = {
@@ -204,7 +219,7 @@ META = {
                           "compose_models(_flat)", "generate_code + 5 generator classes"],
     "symbolic_on_path": ["int/float/bool leaves (symbolic through generate())", "kind of each varying field per sample", "framework", "layout", "options"],
     "bounds": {"quick": "2 samples x 21 kinds on one varying key (441 shapes) x 5 frameworks x 2 layouts; 3 samples x 9 interaction kinds x {pydantic, attrs} x 2 layouts",
-               "thorough": "see parts"},
+               "thorough": "2 samples x 23 kinds x 3 merge policies x 2 registries x dict-field options x 2 literal limits x converters; 3 samples x 23 kinds; 2 samples x 2 keys x 10 kinds; 1 sample x 3 nested fields x 14 kinds; 3 samples x 6 date kinds"},
     "outside_claim": ["acceptance by pydantic's own date/time parsers vs dateutil (third-party parsers)", "deeper nesting / more samples / more varying keys than the bound"],
     "assumptions": ["strings are atoms from a fixed pool", "nested layout only for tree-shaped model graphs",
                     "sqlmodel is the stub package /verif/stubs/sqlmodel"],
